@@ -106,8 +106,10 @@ func checkC13(p *Program, r *Report) {
 // InnerPrefix and of LeafPrefix is a pointer to true — whatever the caller put
 // there — and on every path all three flags the builder dereferences are
 // non-nil afterwards.
-func checkOptNormalisation(p *Program, r *Report) {
-	r.Rule("C13.complete", "E11", "Complete=true forces InnerPrefix and LeafPrefix to true; no flag is left nil", 2)
+func checkOptNormalisation(p *Program, r *Report) { checkOptNormalisationAs(p, r, "C13.complete") }
+
+func checkOptNormalisationAs(p *Program, r *Report, rule string) {
+	r.Rule(rule, "E11", "Complete=true forces InnerPrefix and LeafPrefix to true; no flag is left nil", 2)
 	entry := p.Trie.Func("NewSlimTrie")
 	if entry == nil {
 		r.Unk("option normalisation", "", "trie.NewSlimTrie not found")
